@@ -153,6 +153,7 @@ fn parse_anchor(s: &str) -> std::result::Result<AtAnchor, String> {
             let n: usize = n.parse().map_err(|_| format!("bad anchor {s}"))?;
             return match what {
                 "after" => Ok(AtAnchor::LoopAfter(n)),
+                "before" => Ok(AtAnchor::LoopBefore(n)),
                 "body_start" => Ok(AtAnchor::LoopBodyStart(n)),
                 "body_end" => Ok(AtAnchor::LoopBodyEnd(n)),
                 _ => Err(format!("bad anchor {s}")),
@@ -191,6 +192,7 @@ pub fn run(repo: &str, unit_path: &str, canary: bool) -> std::result::Result<Run
     let mut used_expr: HashSet<String> = HashSet::new();
     let mut used_type: HashSet<String> = HashSet::new();
     let mut unit_exprmap_keys: Vec<String> = vec![];
+    let mut unused_local: Vec<J> = vec![];
 
     let lines: Vec<&str> = tpl.lines().collect();
     let mut i = 0;
@@ -498,9 +500,11 @@ pub fn run(repo: &str, unit_path: &str, canary: bool) -> std::result::Result<Run
                 used_expr.extend(rw.used_expr.iter().cloned());
                 used_type.extend(rw.used_type.iter().cloned());
                 // fn-local exprmap keys must all be used (otherwise the anchor text drifted)
+                // a fn-local exprmap whose key no longer occurs is not fatal: the rewrite was a convenience for Verus, not a
+                // claim about the code. The body is then verified as it stands (and is undecided only if Verus cannot read it).
                 for (k, _) in &local.exprmap {
                     if !unit_exprmap_keys.contains(k) && !rw.used_expr.contains(k) {
-                        return Err(format!("lost-anchor exprmap `{k}` not found in {target}"));
+                        unused_local.push(json!({"fn": target, "exprmap": k}));
                     }
                 }
                 rewrites.extend(rw.log.into_iter().map(|mut l| {
@@ -641,8 +645,62 @@ pub fn run(repo: &str, unit_path: &str, canary: bool) -> std::result::Result<Run
         "rewrites": rewrites,
         "line_map": em.map,
         "unused_unit_exprmaps": unused_expr,
+        "unused_local_exprmaps": unused_local,
     });
     Ok(RunResult { text: em.out.join("\n") + "\n", log })
+}
+
+fn walk_rs(dir: &std::path::Path, out: &mut Vec<std::path::PathBuf>) {
+    if let Ok(rd) = std::fs::read_dir(dir) {
+        for e in rd.flatten() {
+            let p = e.path();
+            if p.is_dir() {
+                walk_rs(&p, out);
+            } else if p.extension().map(|x| x == "rs").unwrap_or(false) {
+                out.push(p);
+            }
+        }
+    }
+}
+
+/// all `<relative file>\t<trait or ->` where `impl ty { fn name }` (or a free `fn name`) is defined
+pub fn locate(repo: &str, ty: &str, name: &str) -> Vec<String> {
+    let mut files = vec![];
+    for sub in ["runtime/src", "rinklecate/src"] {
+        walk_rs(&std::path::Path::new(repo).join(sub), &mut files);
+    }
+    files.sort();
+    let mut hits = vec![];
+    for f in files {
+        let Ok(src) = std::fs::read_to_string(&f) else { continue };
+        let Ok(parsed) = syn::parse_file(&src) else { continue };
+        let rel = f.strip_prefix(repo).unwrap_or(&f).to_string_lossy().trim_start_matches('/').to_string();
+        fn scan(items: &[Item], ty: &str, name: &str, rel: &str, hits: &mut Vec<String>) {
+            for it in items {
+                match it {
+                    Item::Impl(im) if !ty.is_empty() && self_ty_name(&im.self_ty).as_deref() == Some(ty) => {
+                        for ii in &im.items {
+                            if let ImplItem::Fn(m) = ii {
+                                if m.sig.ident == name {
+                                    let tr = im.trait_.as_ref().map(|(_, p, _)| norm(&p.to_token_stream())).unwrap_or("-".into());
+                                    hits.push(format!("{rel}\t{tr}"));
+                                }
+                            }
+                        }
+                    }
+                    Item::Fn(func) if ty.is_empty() && func.sig.ident == name => hits.push(format!("{rel}\t-")),
+                    Item::Mod(m) => {
+                        if let Some((_, its)) = &m.content {
+                            scan(its, ty, name, rel, hits);
+                        }
+                    }
+                    _ => {}
+                }
+            }
+        }
+        scan(&parsed.items, ty, name, &rel, &mut hits);
+    }
+    hits
 }
 
 fn expand_includes(path: &str, depth: usize) -> std::result::Result<String, String> {
